@@ -6,6 +6,7 @@ import re
 def norm_path(p):
     """Drop turbofish generic lists (`::<..>`) from a def path, keep `<impl T>` and
     `<X as Trait>` heads.  `std::vec::Vec::<T, A>::push` -> `std::vec::Vec::push`."""
+    p = p.replace("_::_serde::", "serde::")
     out = []
     i = 0
     n = len(p)
